@@ -28,3 +28,4 @@ def run(ck):
     filt.r8_coefficient_product_width(ck, P, 'C02-R19')   # both separable-convolution readers form the coefficient product in 64 bits
     sampling.r10_transform_flags(ck, P, 'C02-R20')     # the rotate/scale fast paths trust the classification flags; the general path does not
     factors.r21_mmx_lane_consistency(ck, P)
+    status.r_same_storage_needs_same_stride(ck, P, 'C02-R22')
